@@ -20,12 +20,20 @@ res = {"property": pid, "id": f"{pid}-{mn}"}
 try:
     demos = [f for f in os.listdir(src) if f.endswith("_test.go") or f.endswith(".go")]
     demo = [f for f in demos if f.endswith("_test.go")]
+    mainprog = False
+    if not demo and "main.go" in demos:
+        # the demonstration is a small program (needs a production binary, not go test)
+        demo, mainprog, demodir = ["main.go"], True, "examples/zzseeddemo"
+        os.makedirs(os.path.join(wt, demodir), exist_ok=True)
+        os.environ["DEMO_NAME"] = "main.go"
     assert demo, "no demo test file"
     demo = demo[0]
     tests = re.findall(r"^func (Test\w+)\(", open(os.path.join(src, demo)).read(), re.M)
     runre = "^(" + "|".join(tests) + ")$"
     extra = "-race" if "race" in open(os.path.join(src, "README.md")).read().lower() and pid == "C08" else ""
     democmd = f"go test {extra} -vet=off -count=1 -run '{runre}' ./{demodir}/"
+    if mainprog:
+        democmd = f"go run ./{demodir}"
     # (c) demo on clean tree
     shutil.copy(os.path.join(src, demo), os.path.join(wt, demodir, os.environ.get("DEMO_NAME", "zz_seeded_demo_test.go")))
     rc_c, out_c = sh(democmd, wt)
